@@ -34,3 +34,5 @@ pub uninterp spec fn decimal(n: nat) -> Seq<char>;
 #[verifier::external_body]
 pub fn vx_to_string(n: usize) -> (r: Str) ensures r@ == decimal(n as nat) { unimplemented!() }
 pub axiom fn axiom_decimal_injective(a: nat, b: nat) ensures decimal(a) == decimal(b) ==> a == b;
+#[verifier::external_body]
+pub fn vx_str_to_string(s: &Str) -> (r: Str) ensures r@ == s@ { unimplemented!() }
